@@ -273,16 +273,23 @@ class _Model:
     """The sequential model of the interface (the oracle): a plain force array."""
 
     def __init__(self, np, n, nt, F0, dtype):
+        self._abs = np.abs
         self.F = np.zeros((n, nt), dtype)
         self.F[:, 0] = F0
+        # size of the terms that were added to form each force column (add-ons may
+        # cancel: the tolerance scale must follow the summands, not their sum)
+        self.Fabs = np.zeros((n, nt))
+        self.Fabs[:, 0] = np.abs(F0)
         self.last = 0
 
     def send(self, i, f):
         if i < 0:
             self.F[:, self.last] += f
+            self.Fabs[:, self.last] += self._abs(f)
         else:
             assert 1 <= i <= self.last + 1
             self.F[:, i] = f
+            self.Fabs[:, i] = self._abs(f)
             self.last = i
         return self.F[:, :self.last + 1]
 
@@ -422,7 +429,7 @@ def run_history(sh, np, ode, S, ops, r, case, tags, warm=False):
         last = model.last
         want = _batch(twin, S, Fp.copy())
         ctx = {**case, "failed_at_send": step, "op": [i, fkind], "last": last}
-        sd, sv, _ = _scales(np, S, am, want, Fp)
+        sd, sv, _ = _scales(np, S, am, want, model.Fabs[:, :last + 1])
         okd = sh.check_close("send-d", d[:, :last + 1], want.d, rtol * sd, ctx, tags)
         okv = sh.check_close("send-v", v[:, :last + 1], want.v, rtol * sv, ctx, tags)
         okf = sh.check_equal("send-force", np.asarray(ts._force[:, :last + 1]),
@@ -432,7 +439,7 @@ def run_history(sh, np, ode, S, ops, r, case, tags, warm=False):
             return False          # later sends inherit the damage: one report per case
     sol = ts.finalize(get_force=True)
     want = _batch(twin, S, model.F.copy())
-    sd, sv, sa = _scales(np, S, am, want, model.F)
+    sd, sv, sa = _scales(np, S, am, want, model.Fabs)
     sh.check_close("finalize-d", sol.d, want.d, rtol * sd, case, tags)
     sh.check_close("finalize-v", sol.v, want.v, rtol * sv, case, tags)
     sh.check_close("finalize-a", sol.a, want.a, rtol * sa, case, tags)
